@@ -1,5 +1,6 @@
 import StorageModel.Driver.Common
 import StorageModel.Query.Wire
+import StorageModel.Query.History
 /- model driver for C02: `run spec` reads case lines on stdin and prints one output line per case
    (spec = false: the engine model's output; spec = true: the spec's verdict). -/
 namespace StorageModel.Driver.C02
@@ -110,11 +111,64 @@ def specLine (c : Case) : String :=
       s!"ids={ids}|idsc={ids}/{ids}/{state}|cur={cur}|prov={prov}|iter={iter}|seek={seek}|sub={sub}|alien={alien}"
     | _, _ => "spec-error"
 
+/-! ### histories on one query object:  `h <rows> <filter> <sort> <skip> <limit> <store> <op>/<op>/…`
+
+    ops: `run` QueryIdsC | `cur` QueryWithCursorC (bucket cursor) | `it` IterateIds drained | `get` GetSortFields |
+    `ad:<sort>` AdoptSortFields(parse(store, "true sort by …")) | `ada:<sort>` the same with a query parsed against
+    the foreign all-accepting symbol table | `adx:<sort>` as `ad:`, the other query object having paging of its own and
+    being executed / changed afterwards (a different object: no effect on this one) | `sk:<int64>` SetSkip | `li:<int64>` SetLimit | `pr:<filter>` SetPredicate.
+    One output section per op. -/
+
+/-- `none` = an `ad:` whose source query `ast.Parse` refuses (nothing is adopted; section `perr`) -/
+def parseHOp (store : String) (tok : String) : Option (Option QOp) :=
+  match tok.splitOn ":" with
+  | ["run"] => some (some .run)
+  | ["cur"] => some (some .cur)
+  | ["it"] => some (some .iter)
+  | ["get"] => some (some .getSort)
+  | ["ad", s] => (parseSort s).map fun sort => if sortParses store sort then some (.adopt sort) else none
+  | ["adx", s] => (parseSort s).map fun sort => if sortParses store sort then some (.adopt sort) else none
+  | ["ada", s] => (parseSort s).map fun sort => some (.adopt sort)
+  | ["sk", v] => v.toInt?.map fun v => some (.setSkip v)
+  | ["li", v] => v.toInt?.map fun v => some (.setLimit v)
+  | ["pr", f] => (parseFilter f).map fun f => some (.setPredicate f)
+  | _ => none
+
+def renderObs : QObs → String
+  | .answer r => renderExcept r
+  | .rows l => renderIds l
+  | .sort _ => "."      -- a read of the sort clause is not an observation of the property; the executions after it are
+  | .noBucket => "nobucket"
+  | .done => "."
+
+def weave : List (Option QOp) → List String → List String
+  | [], _ => []
+  | none :: r, obs => "perr" :: weave r obs
+  | some _ :: r, o :: obs => o :: weave r obs
+  | some _ :: r, [] => "?" :: weave r []
+
+def histLine (spec : Bool) (toks : List String) : String :=
+  match toks with
+  | [rows, filter, sort, skip, limit, store, ops] =>
+    match parseCase [rows, filter, sort, skip, limit, "-", "-", store], (ops.splitOn "/").mapM (parseHOp store) with
+    | some c, some hops =>
+      match parsePaging c.skip c.limit with
+      | .error _ => "perr"
+      | .ok paging =>
+        if !sortParses c.store c.sort then "perr" else
+        let q : Query := ⟨c.filter, c.sort, paging⟩
+        let ops := hops.filterMap id
+        let obs := if spec then specHistory c.bolt q ops else runHistory Generated.boltzPaging c.bolt q ops
+        "|".intercalate (weave hops (obs.map renderObs))
+    | _, _ => "bad-case"
+  | _ => "bad-case"
+
 def step (line : String) : String :=
   match splitSp line with
   | "q" :: rest => match parseCase rest with
     | some c => modelLine c
     | none => "bad-case"
+  | "h" :: rest => histLine false rest
   | _ => "bad-case"
 
 def specStep (line : String) : String :=
@@ -122,6 +176,7 @@ def specStep (line : String) : String :=
   | "q" :: rest => match parseCase rest with
     | some c => specLine c
     | none => "bad-case"
+  | "h" :: rest => histLine true rest
   | _ => "bad-case"
 
 def run (spec : Bool) : IO Unit := forEachLine (if spec then specStep else step)
